@@ -19,6 +19,7 @@ import (
 
 type devRun struct {
 	id       string
+	procs    int
 	parallel int
 	rep      int
 	exit     int
@@ -26,11 +27,11 @@ type devRun struct {
 	timedOut bool
 }
 
-func runDeviant(bin, id string, parallel int) devRun {
+func runDeviant(bin, id string, parallel, procs int) devRun {
 	cmd := osexec.Command(bin, "-test.run", "^TestConformance$", "-test.timeout", "60s", "-test.parallel", fmt.Sprint(parallel), "-test.count", "1")
-	cmd.Env = append(os.Environ(), "VERIF_DEVIANT="+id)
+	cmd.Env = append(os.Environ(), "VERIF_DEVIANT="+id, fmt.Sprintf("GOMAXPROCS=%d", procs))
 	out, err := cmd.CombinedOutput()
-	r := devRun{id: id, parallel: parallel}
+	r := devRun{id: id, parallel: parallel, procs: procs}
 	if err != nil {
 		r.exit = 1
 		if ee, ok := err.(*osexec.ExitError); ok {
@@ -80,37 +81,27 @@ func c20Custom(d *driver) int {
 	if err != nil {
 		fatalInfra("known_findings.json: %v", err)
 	}
+	// the whole catalogue in both tiers (a suite run takes ~30 ms); the thorough tier repeats more and
+	// adds machine sizes
 	ids := all
-	if d.tier == "quick" {
-		// a fixed third (rotated by the seed) plus every deviant a known finding names
-		ids = nil
-		for i, id := range all {
-			if (i+int(d.seed))%3 == 0 {
-				ids = append(ids, id)
-			}
-		}
-		for _, k := range known {
-			if k.Property == "C20" {
-				for _, id := range all {
-					if sigMatch(k.Signature, "C20:not-rejected:"+id) {
-						ids = append(ids, id)
-					}
-				}
-			}
-		}
-		ids = dedup(sortStrings(ids))
+	procsList, reps := []int{1, 16}, 2
+	if d.tier == "thorough" {
+		procsList, reps = []int{1, 2, 4, 16}, 5
 	}
 	refs := []string{"ref:mem", "ref:os", "ref:wrapper"}
 	type job struct {
 		id       string
 		parallel int
+		procs    int
 		rep      int
 	}
 	var jobs []job
 	for _, id := range append(append([]string{}, refs...), ids...) {
 		for _, p := range []int{1, 16} {
-			for rep := 0; rep < 2; rep++ {
-				jobs = append(jobs, job{id, p, rep})
+			for _, procs := range procsList {
+				for rep := 0; rep < reps; rep++ {
+					jobs = append(jobs, job{id, p, procs, rep})
+				}
 			}
 		}
 	}
@@ -123,7 +114,7 @@ func c20Custom(d *driver) int {
 			defer wg.Done()
 			sem <- struct{}{}
 			defer func() { <-sem }()
-			results[i] = runDeviant(bin, j.id, j.parallel)
+			results[i] = runDeviant(bin, j.id, j.parallel, j.procs)
 			results[i].rep = j.rep
 		}(i, j)
 	}
@@ -179,7 +170,7 @@ func c20Custom(d *driver) int {
 		}
 		switch {
 		case len(verdicts) > 1:
-			report("C20:verdict-unstable:"+id, fmt.Sprintf("the suite's verdict on %q differs between runs (-parallel 1/16, two repetitions): %v", id, rs), id)
+			report("C20:verdict-unstable:"+id, fmt.Sprintf("the suite's verdict on %q differs between runs (-parallel 1/16, GOMAXPROCS 1..16, repetitions): %v", id, rs), id)
 		case strings.HasPrefix(id, "ref:") && anyFail:
 			report("C20:reference-fails:"+id, fmt.Sprintf("the suite reports failures for the unmodified reference %q: %v", id, rs[0].failed), id)
 		case !strings.HasPrefix(id, "ref:") && !allFail:
@@ -198,7 +189,7 @@ func c20Custom(d *driver) int {
 	cov := map[string]interface{}{
 		"evaluations":         len(jobs),
 		"distinct_nontrivial": len(ids),
-		"rule":                "the fixed catalogue of single-deviation wrappers around mem.FS (one per operation x deviation kind) is enumerated; every entry and the three references (mem.FS, os.FS, the wrapper without deviation) run the full fstest.FS and fstest.File suites at -test.parallel 1 and 16, twice each; a deviant is a non-trivial case (it differs from the reference in one observable behaviour); distinct = catalogue ids run",
+		"rule":                "the fixed catalogue of single-deviation wrappers around mem.FS (one per operation x deviation kind) is enumerated; every entry and the three references (mem.FS, os.FS, the wrapper without deviation) run the full fstest.FS and fstest.File suites at -test.parallel 1 and 16 x GOMAXPROCS 1 and 16 (thorough: 1, 2, 4, 16), 2 (thorough: 5) times each, and all runs of one entry must agree; a deviant is a non-trivial case (it differs from the reference in one observable behaviour); distinct = catalogue ids run",
 		"samples":             samples,
 		"catalogue_size":      len(all),
 		"deviants_run":        len(ids),
@@ -236,7 +227,11 @@ func sortStrings(l []string) []string { sort.Strings(l); return l }
 
 func c20Replay(d *driver, rf *replayFile, path string) int {
 	bin := filepath.Join(os.Getenv("VERIF_BUILD"), "deviants.test")
-	r := runDeviant(bin, rf.Probe, 1)
+	procs := 16
+	if strings.HasPrefix(rf.Violation.Signature, "C20:verdict-unstable:") || rf.Probe == "concurrent:busy" {
+		procs = 1
+	}
+	r := runDeviant(bin, rf.Probe, 1, procs)
 	fmt.Printf("deviant %s: exit=%d failing tests=%v\n", rf.Probe, r.exit, r.failed)
 	bad := (strings.HasPrefix(rf.Probe, "ref:") && r.exit != 0) || (!strings.HasPrefix(rf.Probe, "ref:") && r.exit == 0)
 	if bad {
